@@ -139,3 +139,19 @@ class Result(dict):
     @classmethod
     def violation(cls, clause, detail, **kw):
         return cls(status="violation", clause=clause, detail=detail, **kw)
+
+
+def is_harness_bug(e):
+    """A NameError / UnboundLocalError / ImportError raised by a line of the harness itself (not
+    inside the repository or a dependency) is a bug of the harness: it must surface as such
+    instead of being taken for 'the call under test was refused'."""
+    import os
+    if not isinstance(e, (NameError, UnboundLocalError, ImportError, SyntaxError)):
+        return False
+    tb = e.__traceback__
+    last = None
+    while tb is not None:
+        last = tb
+        tb = tb.tb_next
+    here = os.path.dirname(os.path.abspath(__file__))
+    return last is not None and os.path.abspath(last.tb_frame.f_code.co_filename).startswith(here)
